@@ -4,8 +4,10 @@ CFG = {
         J("prod", "witness --only C06"),
         J("prod", "c06", imports="Base Stream Inst Run RunC06", shard=24, timeout=3000),
         J("scaled", "c06", imports="Base Stream Inst Run RunC06", shard=6, timeout=3000),
+        # work package wrows: AesGcm256::decrypt / decrypt_unauthenticated (any call sequence on one object) vs Gcm.v
+        J("prod", "c06-gcmdec", imports="Base Stream Inst Run RunWRows", shard=20),
     ],
-    "run_modules": ["RunC06"],
+    "run_modules": ["RunC06", "RunWRows"],
     "rule": "(a) library -> independent decoder: generated writing plans (1-4 files, 0-7 interleaved pieces of boundary sizes, 4 layer combinations, "
             "levels {0,1,5,9,11}, 1-3 recipients, any recipient's key), production constants (incl. sizes crossing 128 KiB chunk edges and one 4 MiB block "
             "edge) and scaled constants (CHUNK 64, BLOCK 256); (b) independent encoder -> library on the same plan distribution (random ephemeral scalar, key, "
@@ -31,3 +33,14 @@ CFG = {
     "trusted_base": ["RustCrypto aes-gcm / hkdf / sha2, x25519-dalek, brotli crates as independent oracles",
                      "Concrete/{Aes,Ghash,GcmSpec,Sha256,Hmac,Hkdf,X25519}.v specification-level primitives validated by the standards' vectors"],
 }
+
+# work package wrows
+CFG["rule"] += ("; c06-gcmdec: per message length (quick: 0,1,2,15,16,17,20,31,32,33,40; thorough: 0..40), fresh random key/nonce/aad: decrypt in one call with the "
+                "standard tag, with an altered tag or ciphertext bit (2 / 4 variants), decrypt_unauthenticated and decrypt called twice on one object for the splits "
+                "(quick: every fifth, the block edges and the end; thorough: all), plus 50 (quick) / 300 (thorough) random sequences of 1-5 mixed encrypt / decrypt / "
+                "decrypt-with-expected-tag / decrypt_unauthenticated calls of 0..64 bytes on one object followed by into_tag")
+CFG["explanation"] += (" || wrows: job c06-gcmdec gives AesGcm256::decrypt and decrypt_unauthenticated direct rows: every call's buffer afterwards, the tag decrypt returns, "
+                       "the ConstantTimeEq comparison with the expected tag and the final into_tag of the real object equal Gcm.gcm_decrypt / gcm_decrypt_unauth / "
+                       "gcm_encrypt_piece / gcm_into_tag threaded through ONE gstate (concrete AES-256 / GF(2^128)), for every call sequence incl. repeated decrypt calls "
+                       "(which are not a GCM operation: model rows only); oracle where GCM defines the answer: one-call decrypt returns the message and the aes-gcm tag, "
+                       "altered tag / ciphertext compare unequal (aes-gcm rejects them too), decrypt_unauthenticated in pieces returns the message")
